@@ -131,7 +131,9 @@ class Trend(BaseGridder):
         coordinates, data, weights = check_fit_input(coordinates, data, weights)
         easting, northing = n_1d_arrays(coordinates, 2)
         self.region_ = get_region((easting, northing))
-        jac = self.jacobian((easting, northing), dtype=data.dtype)
+        jac = self.jacobian(
+            (easting, northing), dtype=np.result_type(data.dtype, np.float32)
+        )
         self.coef_ = least_squares(jac, data, weights, damping=None)
         return self
 
